@@ -131,6 +131,7 @@ func checkStable(in []interface{}, out interface{}, keys []string, desc []bool) 
 }
 
 func runC13(c *ctx) {
+	stmtAnchored(c)
 	c.rep.Rule = "arrays of objects with sort members over 3-value number/string domains (many ties, missing members, " +
 		"mis-typed members for the error clause); sort specifications of 1..3 terms with every direction marker, keys being members, " +
 		"computed expressions or $; $sort default and with comparators from strict weak orders; lengths 0..8 exhaustive-ish and 13..200 random " +
@@ -292,6 +293,7 @@ func randObj(r *rng, depth int) map[string]interface{} {
 }
 
 func runC14(c *ctx) {
+	stmtC14(c)
 	c.rep.Rule = "groupings whose key expressions map items onto 1..4 strings (collisions, absent and non-string keys), value expressions " +
 		"that are members, aggregates or nested constructors, 1..3 pairs; object functions on null-free objects and arrays of objects; " +
 		"identities evaluated inside JSONata; results compared as unordered objects, multi-member enumeration orders made order-free by sorting in the program"
@@ -400,6 +402,7 @@ var c15Domain = []interface{}{1.0, 2.0, "1", "a", true, false, []interface{}{1.0
 
 var c15Fns = []string{
 	"function($v){$v}", "function($v, $i){$i}", "function($v, $i, $a){$count($a)}", "function(){1}", "function($v){nothing}",
+	"function()<:n>{7}", "function()<:b>{true}", "function()<:b>{false}", "$millis ~> $boolean",
 	"function($v){$v = 1}", "function($v, $i){$i > 0}", "function($v){$type($v) = \"number\"}", "$string", "$boolean", "$not", "$count",
 	"$exists", "$type", "$append(?, 7)", "function($v){[$v]}", "function($v){$v ~> $string}", "$string ~> $length", "function($a, $b){$a}",
 	// chains as the function argument: a chain takes one argument whatever its first link's arity is
@@ -413,6 +416,7 @@ var c15Reducers = []string{
 }
 
 func runC15(c *ctx) {
+	stmtC15(c)
 	c.rep.Rule = "arrays up to length 8 over numbers, strings, booleans, nested arrays and objects with duplicates and value-equal-but-kind-different members, " +
 		"scalars in array position, missing arguments; function arguments that are lambdas of arity 0..3, built-ins, partials and chains; " +
 		"exhaustive for arrays up to length 3 over a 7-value domain (incl. strings spelling the JSON text of container members) for $distinct/$reverse/$count/$append/$zip; $shuffle checked as a permutation"
